@@ -170,6 +170,13 @@ CHECKS = {
             "{absent, existing directory, renamed} x 11 name classes; oracle: destination content/structure/x-bits equal the source "
             "(links followed), no outward links in writable copies, destination registered, source untouched.",
             "Remote = /bin/sh on this machine; wrapped remote locations (containers) are not covered.", "3/C22"),
+    "C29": ("exploration", "E3", E3 + "; differential against cwltool over a feature grammar (singles, ordered pairs, triples)",
+            "CWL v1.2 workflows generated from 39 feature variants (tools, scatter methods and lengths 0/1/3, when, pickValue, linkMerge, "
+            "valueFrom, defaults, sub-workflows, cwltool:Loop, record and File values): singles + ordered pairs (+ triples in "
+            "thorough), each run by StreamFlow's cwl-runner and by cwltool; oracle: both fail or equal outputs (Files by content); a "
+            "vacuity guard requires >= 80% of the programs to run on both.",
+            "1-3 generated steps per workflow, far below the property's 1..6 steps with every combination; cwltool is the reference.",
+            "3/C29"),
 }
 
 NOT_YET = "check not built yet in this session (planned, see DESIGN.md section 3); no claim is made"
